@@ -222,3 +222,44 @@ Proof.
     exists o'. split; [exact H1|]. apply encode_conforms; [|exact H2].
     now apply (abs_class_conforming o' m).
 Qed.
+
+(* ---- the instance after a raising decode ------------------------------------------------------------ *)
+
+Theorem decode_raise_atomic o data :
+  wf_shape o = true -> mem_cls (class_of o) atomic_decode = true -> decode_partial o data = o.
+Proof.
+  intros Hs Hc. unfold wf_shape in Hs.
+  destruct o; cbn [class_of] in Hc; try reflexivity; try (vm_compute in Hc; discriminate Hc);
+    destruct c; try (vm_compute in Hc; discriminate Hc); try discriminate Hs; reflexivity.
+Qed.
+
+Theorem decode_partial_class o data : class_of (decode_partial o data) = class_of o.
+Proof.
+  destruct o; cbn [decode_partial]; try reflexivity;
+    repeat match goal with
+           | |- context [match ?x with _ => _ end] => destruct x; try reflexivity
+           | |- context [if ?b then _ else _] => destruct b; try reflexivity
+           end.
+Qed.
+
+(* register responses: what a raising decode leaves is a prefix of the words on the wire (after the old
+   list, for the accumulating ReadWriteMultipleRegistersResponse) *)
+Lemma read_words_prefix_ok : forall k data n l, (length data <= k)%nat ->
+  read_words data n = Ok l -> read_words_prefix data n = l.
+Proof.
+  induction k as [|k IH]; intros data n l Hk; destruct data as [|h [|lo t]];
+    cbn [read_words read_words_prefix]; destruct (n <=? 0); intros H;
+    try (injection H as <-; reflexivity); try discriminate H; try (cbn [length] in Hk; lia).
+  destruct (read_words t (n - 1)) as [r|] eqn:E; [|discriminate H]. injection H as <-.
+  f_equal. apply IH; [cbn [length] in Hk; lia|exact E].
+Qed.
+
+(* a decode that succeeds and the partial-state function agree on the register list *)
+Theorem decode_partial_regs_complete c regs data r :
+  cls_eqb c ReadWriteMultipleRegistersResponse = false ->
+  decode_into (ORegsRsp c regs) data = Ok r -> decode_partial (ORegsRsp c regs) data = r.
+Proof.
+  intros Hc. cbn [decode_into decode_partial]. destruct (data0 data) as [bc|e]; [|discriminate]. cbn [bind]. rewrite Hc.
+  destruct (read_words (skipn 1 data) (range_len 1 (bc + 1) 2)) as [ws|e] eqn:E; [|discriminate]. cbn [bind].
+  intros H. injection H as <-. now rewrite (read_words_prefix_ok _ _ _ _ (le_n _) E).
+Qed.
